@@ -133,6 +133,12 @@ R5 = {
 }
 
 R6 = {
+ "C02k": ("canEqual's struct case recurses on the field type's Underlying(), losing the 'has its own Equal method' guard", "a type with its own Equal method two struct levels below an otherwise ==-comparable, array-free named struct held by value"),
+ "C03k": ("complex slices sorted with an inlined real<real || imag<imag instead of the derived compare", "compare of maps keyed by complex numbers whose real and imaginary parts order in opposite directions"),
+ "C06k": ("gostring assigns a map field only when len(f) > 0", "a struct field holding an empty non-nil map: it reads back nil"),
+ "C13k": ("signed integer elements sorted with list[i]-list[j] < 0", "two elements that differ by more than half the type's range"),
+ "C14k": ("contains canEqual array case returns types.Comparable(elem)", "a list of arrays of pointers / interfaces and an item that is Equal but not identical"),
+ "C17k": ("join returns nil when the total length is 0", "a non-nil outer list whose inner lists are all empty"),
  "C05k": ("deepcopy gives a map key a fresh deep copy only when the key type is nullable (was: whenever it cannot be copied by assignment)", "a map keyed by a struct or array that contains a pointer: the copied key shares its pointer target with the source"),
  "C07k": ("derived.gen.go opened with O_WRONLY|O_CREATE instead of os.Create (no truncation)", "a previous derived.gen.go longer than the new output"),
  "C09k": ("toerror folds the 'at least one result' and 'last result is bool' checks into one condition", "deriveToError(err, f) where f has no results: goderive panics (index -1)"),
